@@ -55,6 +55,10 @@ type Script struct {
 	actions map[int64][]string // height -> "unstake:<i>" | "stake:<i>"
 	step    time.Duration
 	window  int64
+	// optional overrides of the scripted parameters (0 = the defaults 2 / 1 minute / 1000)
+	bps       int64
+	unstaking time.Duration
+	maxJailed int64
 }
 
 func (h *Hist) nextEntropy() int64 { h.entropy++; return h.entropy }
@@ -126,6 +130,18 @@ func newHist(id int, mode string, r *gen.R, tr *gen.Trace) *Hist {
 			actions: map[int64][]string{9: {"unjail:1"}, 11: {"unjail:1"}, 12: {"unjail:1"}, 13: {"unjail:1"}, 14: {"unjail:1"}, 15: {"unjail:1"}}, step: 2 * time.Minute, window: 10}
 		nGen = 3
 	}
+	if (mode == "c24" || mode == "all") && id%5 == 2 {
+		// a waiting-to-unstake entry that outlives its record and hits the next stake of the same key (sessions of 4
+		// blocks, blocks every 2 minutes, unstaking time 11 minutes, at most 5 jailed blocks): node 1 asks to unstake in
+		// block 5, misses blocks 3-8 (jailed at the 6th miss) and is released into Unstaking at the session end 8; while
+		// unstaking it is jailed for too long (forced unstake = waiting entry again, end of block 13), is paid out and
+		// deleted at the end of block 14 (not a session end), stakes afresh in block 15, and the session end 16 releases
+		// the waiting entry
+		h.script = &Script{miss: map[int64][]int{3: {1}, 4: {1}, 5: {1}, 6: {1}, 7: {1}, 8: {1}},
+			actions: map[int64][]string{5: {"unstake:1"}, 15: {"stake:1"}}, step: 2 * time.Minute, window: 10,
+			bps: 4, unstaking: 11 * time.Minute, maxJailed: 5}
+		nGen = 3
+	}
 	o.Mutate = func(g *chain.Genesis) {
 		p := &g.Nodes.Params
 		p.MaxValidators = int64(1 + r.Intn(5))
@@ -145,6 +161,15 @@ func newHist(id int, mode string, r *gen.R, tr *gen.Trace) *Hist {
 			p.DowntimeJailDuration = 10 * time.Minute
 			p.SlashFractionDowntime = sdk.NewDecWithPrec(1, 4)
 			p.MaxJailedBlocks = 1000
+			if h.script.bps != 0 {
+				p.SessionBlockFrequency = h.script.bps
+			}
+			if h.script.unstaking != 0 {
+				p.UnstakingTime = h.script.unstaking
+			}
+			if h.script.maxJailed != 0 {
+				p.MaxJailedBlocks = h.script.maxJailed
+			}
 		}
 		// the stake-weight parameters are skipped by InitGenesis (their feature is not active at height 0);
 		// the owner sets them through governance in block 3 (see setup)
